@@ -304,6 +304,21 @@ def classify_arg(call: ast.Call, who: str, fn: Optional[ast.AST] = None) -> str:
         return norm(e)
     parts = [expand(a) for a in call.args] + [expand(k.value) for k in call.keywords]
     text = " ".join(parts)
+    # dictionary-valued `**E`: follow local names, comprehensions, dict.fromkeys, dict(), .copy()
+    from .prov import dict_arg
+    for k in call.keywords:
+        if k.arg is None:
+            da = dict_arg(k.value, fn)
+            if da is not None:
+                src, val, _f = da
+                if val == "-inf":
+                    return NINF
+                if val == "inf":
+                    return PINF
+                if val == "same":
+                    for sub, sym in ARG_RECOGNISERS:
+                        if sub in src:
+                            return sym
     # constant ±inf dictionary comprehension / literal
     for k in call.keywords:
         v = k.value
